@@ -686,6 +686,32 @@ def annotate(text, annots):
                         break
                 ins.append((ts[pos + 1].start, a["iter"] + ": ", "itername", order))
             ins.append((ts[lb].start, "\n" + a["text"].rstrip() + "\n", "loop", order))
+        elif kind == "closure":
+            # C1 closure contract: `|x| body` -> `|x: T| -> (r: R) requires .. ensures .. { body }`.
+            # Inserted: parameter type ascriptions, a named return type, contract clauses and the braces that
+            # Verus' closure-spec syntax needs.  None of it has runtime meaning; the audit strips all of it.
+            _check_ghost("contract", a["contract"])
+            anchor = tok_texts(a["anchor"])
+            all_t = [t.text for t in ts]
+            hits = [i for i in range(len(all_t) - len(anchor) + 1) if all_t[i:i + len(anchor)] == anchor]
+            if len(hits) != 1:
+                raise VxError("lost anchor: closure %r occurs %d times" % (a["anchor"], len(hits)))
+            h = hits[0]
+            if ts[h].text == "move":
+                h += 1
+            if ts[h].text != "|":
+                raise VxError("lost anchor: closure anchor must start with `|`")
+            # closing bar of the parameter list
+            j = h + 1
+            while ts[j].text != "|":
+                j += 1
+            for pname, pty in (a.get("params") or {}).items():
+                k = [x for x in range(h + 1, j) if ts[x].text == pname]
+                if len(k) != 1:
+                    raise VxError("lost anchor: closure parameter %r" % pname)
+                ins.append((ts[k[0]].end, ": " + pty, "closure", order))
+            ins.append((ts[j].end, " -> " + a["ret"] + "\n" + a["contract"].rstrip() + "\n{ ", "closure", order))
+            ins.append((ts[hits[0] + len(anchor) - 1].end, " }", "closure", order))
         elif kind == "ghost" and a.get("at"):
             # structural anchors: survive renames and statement reordering inside the function
             _check_ghost("ghost", a["text"])
@@ -772,6 +798,30 @@ def load_unit(path):
         return tomllib.load(f)
 
 
+def _locate_if_block(src, s, e, anchor):
+    """E3 statement lift: the `if .. {..} else ..` statement starting with the token sequence `anchor`
+    inside src[s:e]; returns absolute (start, end) offsets"""
+    sub = src[s:e]
+    toks = lex(sub)
+    at = tok_texts(anchor)
+    texts = [t.text for t in toks]
+    hits = [i for i in range(len(texts) - len(at) + 1) if texts[i:i + len(at)] == at]
+    if len(hits) != 1 or texts[hits[0]] != "if":
+        raise VxError("lost anchor: statement %r occurs %d times" % (anchor, len(hits)))
+    i = hits[0]
+    while True:
+        b = next_body_brace(toks, i + 1)
+        if b is None:
+            raise VxError("lost anchor: if without block")
+        c = match_close(toks, b)
+        if c + 1 < len(toks) and toks[c + 1].text == "else":
+            if toks[c + 2].text == "if":
+                i = c + 2
+                continue
+            c = match_close(toks, c + 2)
+        return s + toks[hits[0]].start, s + toks[c].end
+
+
 def extract_one(repo, ex, report):
     fpath = os.path.join(repo, ex["file"])
     try:
@@ -779,6 +829,12 @@ def extract_one(repo, ex, report):
     except OSError as e:
         raise VxError("lost anchor: cannot read %s: %s" % (ex["file"], e))
     s, e = locate(src, ex["path"], with_attrs=ex.get("with_attrs", False))
+    if ex.get("kind") == "block":
+        s, e = _locate_if_block(src, s, e, ex["statement"])
+        raw = ex["wrap_head"] + " {\n        " + src[s:e] + "\n}"
+        # the wrapper (signature line and braces) is declared text, the statement is verbatim
+        src = src[:s] + raw + src[e:]
+        e = s + len(raw)
     raw = src[s:e]
     start_line = src.count("\n", 0, s) + 1
     rlog = []
